@@ -1,7 +1,202 @@
-import Driver.Util
-open Lean
+import Driver.ProgJson
+import Heph.Model.Mutation
+/-! ops of the mutation family (C03, C04): program diffs, the feasibility test on an exported
+    type graph, the choice of the combination, `str()` of types / the error message,
+    unrelatedness.  Paths are answered root first, as `[[group, index], …]`. -/
+open Lean Heph Heph.Mut
 namespace Driver.Mut
 
-def handle : Handler := fun _ _ => none
+def fieldJson : Field → Json
+  | .varType => Json.arr #[Json.str "varType"]
+  | .retType => Json.arr #[Json.str "retType"]
+  | .newInfer => Json.arr #[Json.str "newInfer"]
+  | .callInfer => Json.arr #[Json.str "callInfer"]
+  | .newArg i => Json.arr #[Json.str "newArg", Json.num (JsonNumber.fromNat i)]
+  | .callArg i => Json.arr #[Json.str "callArg", Json.num (JsonNumber.fromNat i)]
+
+def pathJson (π : Path) : Json :=
+  Json.arr (π.reverse.toArray.map fun s => ofNatList [s.1, s.2])
+
+def siteJson (s : Site) : Json := Json.arr #[pathJson s.path, fieldJson s.field]
+
+/-! first structural difference of two trees (diagnostics only, not part of the model) -/
+mutual
+partial def firstDiffN (π : Path) (a b : Node) : Option Path :=
+  if nodeEq a b then none else
+  let kids (xs ys : List (Nat × List Node × List Node)) : Option Path :=
+    xs.zip ys |>.foldl (fun acc (p, _) => match acc with
+      | some r => some r
+      | none => firstDiffL π p.1 0 p.2.1 p.2.2) none
+  let r : Option Path := match a, b with
+    | .block x _, .block y _ => kids [(0, x, y)] [(0, x, y)]
+    | .superInst _ (some x), .superInst _ (some y) => kids [(0, x, y)] [(0, x, y)]
+    | .classDecl _ _ _ f s fn _, .classDecl _ _ _ f' s' fn' _ =>
+        let l := [(0, f, f'), (1, s, s'), (2, fn, fn')]; kids l l
+    | .varDecl _ e _ _ _, .varDecl _ e' _ _ _ => kids [(0, [e], [e'])] [(0, [e], [e'])]
+    | .callArg e _, .callArg e' _ => kids [(0, [e], [e'])] [(0, [e], [e'])]
+    | .paramDecl _ _ _ d, .paramDecl _ _ _ d' => kids [(0, d.toList, d'.toList)] [(0, d.toList, d'.toList)]
+    | .funcDecl _ ps _ _ bd _ _ _ _, .funcDecl _ ps' _ _ bd' _ _ _ _ =>
+        let l := [(0, ps, ps'), (1, bd.toList, bd'.toList)]; kids l l
+    | .lambda _ ps _ bd _, .lambda _ ps' _ bd' _ => let l := [(0, ps, ps'), (1, [bd], [bd'])]; kids l l
+    | .funcRef _ r _, .funcRef _ r' _ => kids [(0, r.toList, r'.toList)] [(0, r.toList, r'.toList)]
+    | .arrayE _ _ es, .arrayE _ _ es' => kids [(0, es, es')] [(0, es, es')]
+    | .isE e _ _, .isE e' _ _ => kids [(0, [e], [e'])] [(0, [e], [e'])]
+    | .binop _ l r _, .binop _ l' r' _ => let k := [(0, [l], [l']), (1, [r], [r'])]; kids k k
+    | .cond c t f _, .cond c' t' f' _ => let k := [(0, [c], [c']), (1, [t], [t']), (2, [f], [f'])]; kids k k
+    | .newE _ x _, .newE _ y _ => kids [(0, x, y)] [(0, x, y)]
+    | .fieldAccess e _, .fieldAccess e' _ => kids [(0, [e], [e'])] [(0, [e], [e'])]
+    | .call _ x r _ _ _, .call _ y r' _ _ _ => let k := [(0, x, y), (1, r.toList, r'.toList)]; kids k k
+    | .assign _ e r, .assign _ e' r' => let k := [(0, [e], [e']), (1, r.toList, r'.toList)]; kids k k
+    | _, _ => none
+  match r with
+  | some p => some p
+  | none => some π
+partial def firstDiffL (π : Path) (g i : Nat) (xs ys : List Node) : Option Path :=
+  match xs, ys with
+  | [], [] => none
+  | x :: xs, y :: ys =>
+    (match firstDiffN ((g, i) :: π) x y with
+     | some p => some p
+     | none => firstDiffL π g (i + 1) xs ys)
+  | _, _ => some π
+end
+
+def firstDiff (p q : Program) : Json :=
+  match firstDiffL [] 0 0 p.decls q.decls with
+  | some π => pathJson π
+  | none => if p.lang != q.lang then Json.str "lang" else Json.str "context"
+
+/-! the type graph -/
+def parseKind : String → TGKind
+  | "type" => .typeN | "decl" => .declN | "instcall" => .instCall | "instdecl" => .instDecl
+  | "tvar" => .tvar | _ => .other
+
+def parseTGNode (tbl : Array Ty) (j : Json) : Except String TGNode := do
+  let k := parseKind (← getStr j "k")
+  let id := match j.getObjValD "id" with | .str s => s | _ => "?"
+  let pid := match j.getObjValD "pid" with | .str s => some s | _ => none
+  let tk := match j.getObjValD "tk" with | .str s => s | _ => "none"
+  let t ← match tk with
+    | "ty" => do pure (TRef.ty (← tyAt tbl j "t"))
+    | "other" => pure TRef.other
+    | _ => pure TRef.none
+  let asg ← match j.getObjVal? "assign" with
+    | .error _ => pure []
+    | .ok v => do
+      (← v.getArr?).toList.mapM fun e => do
+        let p ← e.getArr?
+        if p.size != 2 then throw "assign pair expected"
+        let a ← p[0]!.getNat?
+        let b ← p[1]!.getNat?
+        match tbl[a]?, tbl[b]? with
+        | some x, some y => pure (x, y)
+        | _, _ => throw "assign index out of range"
+  pure { kind := k, nodeId := id, parentId := pid, t := t, assign := asg }
+
+def parseEdges (j : Json) : Except String Edges := do
+  (← j.getArr?).toList.mapM fun e => do
+    let p ← e.getArr?
+    if p.size != 2 then throw "edges entry must be [key, [[target, declared]…]]"
+    let k ← p[0]!.getNat?
+    let es ← (← p[1]!.getArr?).toList.mapM fun x => do
+      let q ← x.getArr?
+      if q.size != 2 then throw "edge must be [target, declared]"
+      pure (← q[0]!.getNat?, (← q[1]!.getNat?) == 1)
+    pure (k, es)
+
+def parseTG (j : Json) : Except String (List TGNode × Edges) := do
+  let tbl ← parseTable j
+  let nodes ← (← getArr j "nodes").toList.mapM (parseTGNode tbl)
+  let edges ← parseEdges (← j.getObjVal? "edges")
+  pure (nodes, edges)
+
+def ferr : FErr → Json
+  | .keyError => Json.str "KeyError"
+  | .assertionError => Json.str "AssertionError"
+  | .attributeError => Json.str "AttributeError"
+  | .fuel => Json.str "fuel"
+
+def fres : Except FErr Bool → Json
+  | .ok b => Json.bool b
+  | .error e => ferr e
+
+def natListList (j : Json) : Except String (List (List Nat)) := do
+  (← j.getArr?).toList.mapM natList
+
+def relJson (extra : List (String × String)) (a b : Ty) : Json :=
+  Json.mkObj [("unrelated", Json.bool (unrelated extra a b)),
+    ("rel", Json.arr #[resToJson (Ty.isSubtype a b), resToJson (Ty.isSubtype b a),
+                       resToJson (Ty.isAssignable extra a b), resToJson (Ty.isAssignable extra b a)])]
+
+def handle : Handler := fun op j =>
+  match op with
+  | "mut.erasure_diff" => some (do
+      let (_, p) ← parseProgramObj (← j.getObjVal? "before")
+      let (_, q) ← parseProgramObj (← j.getObjVal? "after")
+      match erasureDiff p q with
+      | some S => pure (res (Json.mkObj [("sites", Json.arr (S.toArray.map siteJson))]))
+      | none =>
+        let S := candSites (slots p) (slots q)
+        pure (res (Json.mkObj [("not", Json.str "not-an-erasure"), ("at", firstDiff (eraseAt S p) q),
+          ("cand", Json.num (JsonNumber.fromNat S.length))])))
+  | "mut.overwrite_diff" => some (do
+      let (_, p) ← parseProgramObj (← j.getObjVal? "before")
+      let (_, q) ← parseProgramObj (← j.getObjVal? "after")
+      let extra ← parsePairs j "extra"
+      let bn ← parsePairs j "bnames"
+      match overwriteDiff p q with
+      | .none => pure (res (Json.str "none"))
+      | .more => pure (res (Json.mkObj [("more", firstDiff p q),
+          ("ndiff", Json.num (JsonNumber.fromNat (slotDiffs (slots p) (slots q)).length))]))
+      | .one s old new =>
+        pure (res (Json.mkObj [("site", siteJson s), ("old_str", Json.str (pyStr bn old)),
+          ("new_str", Json.str (pyStr bn new)), ("old_name", Json.str (Ty.getName old)),
+          ("new_name", Json.str (Ty.getName new)),
+          ("old_prim", Json.bool old.isPrim), ("new_prim", Json.bool new.isPrim),
+          ("old_builtin", Json.bool old.isBuiltin), ("new_builtin", Json.bool new.isBuiltin),
+          ("rel", relJson extra old new)])))
+  | "mut.feasible" => some (do
+      let (nodes, edges) ← parseTG j
+      match j.getObjVal? "combinations" with
+      | .ok cs => do
+        let cs ← natListList cs
+        pure (res (Json.arr (cs.toArray.map fun c => fres (feasible nodes edges c))))
+      | .error _ => do
+        let c ← getNatList j "combination"
+        pure (res (fres (feasible nodes edges c))))
+  | "mut.pick" => some (do
+      let (nodes, edges) ← parseTG j
+      let om ← getNatList j "omittable"
+      let max ← getNat j "max"
+      let qs ← match j.getObjVal? "queries" with | .ok v => natListList v | .error _ => pure []
+      let searchToo := match j.getObjVal? "search" with | .ok (.bool false) => false | _ => true
+      match prefilter nodes edges om [] [] with
+      | .error e => pure (res (ferr e))
+      | .ok (g', kept, singles) =>
+        let post := Json.arr (qs.toArray.map fun c => fres (feasible nodes g' c))
+        let base := [("kept", ofNatList kept), ("singles", Json.arr (singles.toArray.map Json.bool)), ("post", post)]
+        if !searchToo then pure (res (Json.mkObj base)) else
+        match pick nodes edges om max with
+        | .error e => pure (res (ferr e))
+        | .ok r =>
+          pure (res (Json.mkObj (base ++ [
+            ("chosen", match r.chosen with | some c => ofNatList c | none => Json.null),
+            ("asked", Json.num (JsonNumber.fromNat r.asked)), ("cutoff", Json.bool r.cutoff)]))))
+  | "mut.combos" => some (do
+      let xs ← getNatList j "xs"
+      pure (res (ofNatListList (allCombos xs))))
+  | "mut.message" => some (do
+      let tbl ← parseTable j
+      pure (res (Json.str (errorMessage (← parsePairs j "bnames") (← tyAt tbl j "old") (← tyAt tbl j "new")
+        (← getStr j "node_id")))))
+  | "mut.str" => some (do
+      let tbl ← parseTable j
+      let bn ← parsePairs j "bnames"
+      let ts ← tyListAt tbl j "ts"
+      pure (res (ofStrList (ts.map (pyStr bn)))))
+  | "mut.unrelated" => some (do
+      let tbl ← parseTable j
+      pure (res (relJson (← parsePairs j "extra") (← tyAt tbl j "a") (← tyAt tbl j "b"))))
+  | _ => none
 
 end Driver.Mut
